@@ -3,7 +3,7 @@ import PymtlVerif.Model.AstRW
 /-!
 Handler `astrw`: executable face of `Model/AstRW.lean` (`AstHelper.DetectReadsWritesCalls` + `extract_obj_from_names`).
 
-`astrw full (closure x ...) (globals x ...) (body <stmt> ...) <heap> (funcs f ...) (vals (<0|1> x k) ...)`
+`astrw full (closure x ...) (globals x ...) (params x ...) (body <stmt> ...) <heap> (funcs f ...) (vals (<0|1> x k) ...)`
 
 * `<stmt>`/`<expr>`: `nil` | `str` | `(name x L|S|D)` | `(num n)` | `(attr v a ctx)` | `(sub v i ctx)` | `(slice lo up st)` |
   `(call f (args...) (kws...))` | `(assign (ts...) v)` | `(aug t Op v)` | `(for t it (body...) (orelse...))` |
@@ -12,10 +12,10 @@ Handler `astrw`: executable face of `Model/AstRW.lean` (`AstHelper.DetectReadsWr
   `(lst <heap> ...)` | `(other (...))` | `none`.
 
 Reply: `err <Err>` or
-`ok (rd <rec> ...) (wr <rec> ...) (fc <rec> ...) (sup <0|1> <0|1>) [objs <set> <set> <set>]`
+`ok (rd <rec> ...) (wr <rec> ...) (fc <rec> ...) (sup <0|1>) [objs <set> <set> <set>]`
 with `<rec>` = `(<op> (<field> <idx> ...) ...)`, `<op>` = `none` | `for` | the operator class, `<idx>` = `*` | `n` | `(v <0|1> x)` |
 `(sl <b> <b>)`; `<set>` = `(err <LErr>)` or `(<ref> ...)` sorted, duplicate-free, `<ref>` = `id` | `(id lo hi)` | `(f name)`.
-`sup` = `supported` without / with the call clause (`Model/AstRW.lean`).
+`sup` = `supportedBody` (`Model/AstRW.lean`).
 -/
 namespace PV.Driver.AstRW
 open PV PV.AstRW
@@ -118,18 +118,19 @@ def val? : Sexp → Option (Bool × String × Int)
 def syms? (xs : List Sexp) : Option (List String) := xs.mapM Sexp.sym?
 
 def handle : List Sexp → Option String
-  | [.atom "full", .list (.atom "closure" :: cl), .list (.atom "globals" :: gl), .list (.atom "body" :: body), heap,
+  | [.atom "full", .list (.atom "closure" :: cl), .list (.atom "globals" :: gl), .list (.atom "params" :: ps),
+     .list (.atom "body" :: body), heap,
      .list (.atom "funcs" :: fs), .list (.atom "vals" :: vs)] => do
-    let cl ← syms? cl; let gl ← syms? gl; let fs ← syms? fs
+    let cl ← syms? cl; let gl ← syms? gl; let fs ← syms? fs; let ps ← syms? ps
     let body ← body.mapM node?
     let vals ← vs.mapM val?
     let env : Env := ⟨cl, gl⟩
-    match extractBody env body with
+    match extractFn env ps body with
     | .error e => some s!"err {showErr e}"
     | .ok evs =>
       let (rd, wr, fc) := split evs
       let names := fun (l : List Ev) => " ".intercalate (l.map showRec)
-      let sup := s!"(sup {b2s (supportedBody false body)} {b2s (supportedBody true body)})"
+      let sup := s!"(sup {b2s (supportedBody body)})"
       let base := s!"ok (rd {names rd}) (wr {names wr}) (fc {names fc}) {sup}"
       match heap with
       | .atom "nil" => some base
